@@ -85,7 +85,7 @@ class C02(RS.StepProp):
     fail_text = {1: 'a fine node has an empty fragid or one that is not a coarse node key',
                  2: "a coarse node's graph is not exactly the sub-graph of the fine nodes recording it",
                  3: 'a fine node is in no coarse node graph',
-                 4: 'a template atom has no (unique) copy with the same element/name/annotations under the coarse node',
+                 4: 'a template atom has no (unique) copy with the same element/name/annotations under the coarse node, or two template atoms share one copy',
                  5: "the copy's internal bonds / bond orders differ from the fragment's",
                  6: 'a coarse node without fragment carries fine nodes',
                  7: 'a fine node does not report the fragment name of its coarse node',
@@ -104,6 +104,8 @@ class C02(RS.StepProp):
                 ('{[#A][#B]}.{#A=CC[!],#B=[!]CC}', True),
                 ('{[#A]([#B])[#A]}.{#A=[$][#X]1[#Y][#Z]1[$],#B=[$][#P]=[#Q]}', False),
                 ('{[#B1][#B2][#B1]}.{#B1=[#PEO]|4,#B2=[#PE]|2}.{#PEO=[>]COC[<],#PE=[>]CC[<]}', True),
+                ('{[#A][#B][#C]}.{#A=OC[!],#B=[!]CC[!],#C=[!]CO}', True),       # two different shared atoms bonded to each other
+                ('{[#R]=[#R]}.{#R=[!]c1ccccc1[!]}', True),
                 # the squash operator on two levels (node numbers restart on every level)
                 ('{[#A][#B]}.{#A=[#X][#Y][!],#B=[!][#Y][#Z]}.{#X=OC[!],#Y=[!]CC[!],#Z=[!]CN}', True),
                 ('{[#A][#B][#A]}.{#A=[!][#X][#Y][!],#B=[!][#Y][#X][!]}.{#X=[!]OC[!],#Y=[!]CC[!]}', True),
@@ -196,6 +198,14 @@ class C02(RS.StepProp):
         for _, fid in impl.get('fragid', []):
             if not isinstance(fid, list) or not fid or any(f not in keys for f in fid):
                 return 1
+        # clause 4 (part): two different template atoms of one coarse node must not sit on one fine atom
+        fid = dict((n, f) for n, f in impl.get('fragid', []))
+        for n, mp in impl.get('mapping', []):
+            seen = set()
+            for k, m in zip(fid.get(n) or [], mp):
+                if (k, m[0]) in seen:
+                    return 4
+                seen.add((k, m[0]))
         covered = {n for _, _, nodes in impl['coarse'] for n in nodes}
         if any(n not in covered for n, _ in impl.get('fragid', [])):
             return 3
